@@ -4,7 +4,7 @@
 (* lattice (points on the coordinates PC, e.g. the even numbers), one      *)
 (* query point on QC (all integers, so queries fall on stored points, on   *)
 (* cell borders and outside the hull), one metric; with                    *)
-(*   ks   = 0 .. n+1                                                       *)
+(*   ks   = 0 .. n+1, and k far beyond n (usize::MAX, usize::MAX/2, 2^32)  *)
 (*   r8s  = radii in eighths: 0, every attained distance that is exactly   *)
 (*          representable (points ON the sphere), the smallest eighth      *)
 (*          strictly above every attained distance (strictly between       *)
@@ -133,7 +133,9 @@ MkCase(f, P, q, m, sc) ==
       plan == (Hash(P, q, m, sc) \div f.stride) % 4
   IN [kind |-> "nn",
       inp |-> [n |-> n, dim |-> Dim, sc |-> sc, pts |-> P, q |-> q, metric |-> m,
-               ks |-> [j \in 1..(n + 2) |-> j - 1],
+               \* 0..n+1, then codes for k far beyond n: -1 = usize::MAX, -2 = usize::MAX / 2 and (a quarter of
+               \* the cases: it costs a child process) -3 = 2^32, an amount no allocator can reserve
+               ks |-> [j \in 1..(n + 2) |-> j - 1] \o <<-1, -2>> \o (IF plan = 0 THEN <<-3>> ELSE <<>>),
                r8s |-> R8s(m, dv),
                badq |-> << <<>>, [i \in 1..(Dim + 1) |-> 1] >>,
                sess |-> Sessions(n, plan) \o TreeSess(m, plan)]]
